@@ -38,6 +38,9 @@ struct TokenParser {
     max_parse_steps: usize,
     budget_exhausted: bool,
     nesting_depth: usize,
+    // Upper bound on the height of the expression tree(s) completed so far inside the
+    // enclosing `parse_expression_bp` frame (see `grow_expression`).
+    expr_height: usize,
 }
 
 impl TokenParser {
@@ -59,6 +62,10 @@ impl TokenParser {
     // not depth, so depth is bounded separately to keep deeply nested input from overflowing
     // the stack.
     const MAX_NESTING_DEPTH: usize = 64;
+    // The infix and postfix loops extend an expression tree without recursing (`1+1+1+...`,
+    // `a.b.c...`, `x[0][0]...`), so nesting depth alone does not bound the tree's height, and
+    // every later stage (validation, planning, evaluation, even Drop) walks it recursively.
+    const MAX_EXPRESSION_HEIGHT: usize = 128;
 
     fn new(tokens: Vec<Token>) -> Self {
         let max_parse_steps = Self::max_parse_steps_for(tokens.len());
@@ -70,6 +77,7 @@ impl TokenParser {
             max_parse_steps,
             budget_exhausted: false,
             nesting_depth: 0,
+            expr_height: 0,
         }
     }
 
@@ -1036,9 +1044,29 @@ impl TokenParser {
             self.nesting_depth -= 1;
             return Err(Self::parser_complexity_error());
         }
+        // `expr_height` protocol: a frame starts at 0, every completed sub-expression leaves the
+        // maximum of its siblings' heights, every node wrapped around the expression under
+        // construction adds one (`grow_expression`). On exit the caller's value is restored to
+        // the maximum of what it had and this expression's height.
+        let outer_height = self.expr_height;
+        self.expr_height = 0;
         let result = self.parse_expression_bp_inner(min_bp);
+        self.expr_height = outer_height.max(self.expr_height + 1);
         self.nesting_depth -= 1;
         result
+    }
+
+    /// Called whenever a loop wraps the expression built so far into a new parent node.
+    fn grow_expression(&mut self) -> Result<(), Error> {
+        self.grow_expression_by(1)
+    }
+
+    fn grow_expression_by(&mut self, levels: usize) -> Result<(), Error> {
+        self.expr_height = self.expr_height.saturating_add(levels);
+        if self.expr_height > Self::MAX_EXPRESSION_HEIGHT {
+            return Err(Self::parser_complexity_error());
+        }
+        Ok(())
     }
 
     fn parse_expression_bp_inner(&mut self, min_bp: u8) -> Result<Expression, Error> {
@@ -1056,6 +1084,7 @@ impl TokenParser {
                 self.consume_null_keyword("Expected NULL after IS")?;
                 BinaryOperator::IsNull
             };
+            self.grow_expression()?;
             lhs = Self::binary_expr(lhs, op, Expression::Literal(Literal::Null));
         }
 
@@ -1074,6 +1103,7 @@ impl TokenParser {
             }
 
             let rhs = self.parse_expression_bp(rbp)?;
+            self.grow_expression()?;
             if Self::is_chainable_comparison_operator(&op) {
                 // Comparison chains are equivalent to pairwise comparisons joined by AND:
                 // a < b <= c     => (a < b) AND (b <= c)
@@ -1092,6 +1122,7 @@ impl TokenParser {
                         self.consume(&TokenType::With, "Expected WITH after STARTS/ENDS")?;
                     }
                     let next_rhs = self.parse_expression_bp(next_rbp)?;
+                    self.grow_expression()?;
                     let chained_cmp = Self::binary_expr(chain_left, next_op, next_rhs.clone());
                     combined = Self::binary_expr(combined, BinaryOperator::And, chained_cmp);
                     chain_left = next_rhs;
@@ -1370,6 +1401,7 @@ impl TokenParser {
         loop {
             if self.match_token(&TokenType::Dot) {
                 let property = self.parse_property_key()?;
+                self.grow_expression()?;
                 expr = match expr {
                     Expression::Variable(variable) => {
                         Expression::PropertyAccess(PropertyAccess { variable, property })
@@ -1383,6 +1415,7 @@ impl TokenParser {
             }
 
             if self.match_token(&TokenType::LeftBracket) {
+                self.grow_expression()?;
                 // Parse index/slice: expr[idx] / expr[start..end]
                 let start_expr =
                     if self.check(&TokenType::RangeDots) || self.check(&TokenType::RightBracket) {
@@ -1426,6 +1459,8 @@ impl TokenParser {
 
             if self.match_token(&TokenType::Colon) {
                 let labels = self.parse_expression_label_chain()?;
+                // One `AND` level per label (`n:A:B:C` => ((n:A AND n:B) AND n:C)).
+                self.grow_expression_by(labels.len())?;
                 expr = self.build_expression_label_predicate(expr, labels);
                 continue;
             }
